@@ -325,6 +325,17 @@ def check(ctx: Ctx) -> list[RuleResult]:
             r5.fail("Priority:order", repo.mod("ramses_tx.const").rel, f"Priority values are not ordered most-urgent-smallest: {m}")
     else:
         raise AnalysisError("ramses_tx.const.Priority is not a foldable IntEnum")
+    # the heap behind the PriorityQueue is only touched through the queue API: reaching into `.queue` (remove/pop/insert/sort/del)
+    # breaks the heap invariant, so later entries come out in the wrong order
+    API = {"put_nowait", "get_nowait", "put", "get", "task_done", "qsize", "empty", "full", "join"}
+    for g2 in repo.funcs.values():
+        if g2.module.name != F:
+            continue
+        for n in own_nodes(g2.node):
+            if isinstance(n, ast.Attribute) and isinstance(n.value, ast.Attribute) and n.value.attr == "_que" and n.attr not in API and not n.attr.startswith("__"):
+                r5.instances += 1
+                r5.nontrivial += 1
+                r5.fail(f"{g2.short}:reaches-into-queue:{n.attr}", g2.loc(n), f"{g2.short} reaches into the send queue's internals (`{norm(n)}`): removing or re-ordering entries of the underlying heap list breaks the priority/FIFO order of the remaining commands")
     out.append(r5)
     return out
 
